@@ -74,15 +74,15 @@ Proof. intros. apply classify_exhaustive; auto. Qed.
 Lemma nltb_R a b : nltb ROps a b = Rltb a b. Proof. reflexivity. Qed.
 Lemma nleb_R a b : nleb ROps a b = Rleb a b. Proof. reflexivity. Qed.
 
-Lemma sgn_cases x : (0 < x /\ sgn ROps x = 1%Z) \/ (x < 0 /\ sgn ROps x = (-1)%Z) \/ (x = 0 /\ sgn ROps x = 0%Z).
+Lemma sgn_cases x : (0 < x /\ sgnT ROps x = 1%Z) \/ (x < 0 /\ sgnT ROps x = (-1)%Z) \/ (x = 0 /\ sgnT ROps x = 0%Z).
 Proof.
-  unfold sgn. cbn [nltb n0 ROps]. destruct (Rltb 0 x) eqn:A.
+  unfold sgnT. cbn [nltb n0 ROps]. destruct (Rltb 0 x) eqn:A.
   - apply Rltb_true in A. auto.
   - apply Rltb_false in A. destruct (Rltb x 0) eqn:B.
     + apply Rltb_true in B. auto.
     + apply Rltb_false in B. right; right. split; auto. lra.
 Qed.
-Lemma sgn_in x : In (sgn ROps x) signs.
+Lemma sgn_in x : In (sgnT ROps x) signs.
 Proof. destruct (sgn_cases x) as [[_ E]|[[_ E]|[_ E]]]; rewrite E; simpl; auto. Qed.
 
 Lemma nmin_R a b : nmin ROps a b = Rmin a b.
